@@ -30,6 +30,7 @@ from pedal.sandbox.exceptions import SandboxHasNoFunction, SandboxHasNoVariable
 from pedal.sandbox.timeout import timeout
 from pedal.sandbox.result import SandboxResult
 from pedal.sandbox.tracer import TRACER_STYLES
+from pedal.utilities.system import IS_SKULPT
 
 
 class _NoLock:
@@ -163,7 +164,10 @@ class Sandbox:
         imported_module = types.ModuleType(module_name)
         # Patch the builtins using the same rules as `execute`
         #    EXCEPT only the builtins, not the other stuff?
-        imported_module_data = {}
+        # The module's code runs in the module's own namespace, so that its
+        # functions see later changes to the module's attributes (Skulpt
+        # cannot do that yet and keeps the copying below)
+        imported_module_data = {} if IS_SKULPT else imported_module.__dict__
         self._reset_builtins(imported_module_data)
         builtins = self._module_overrides.get('__builtins__', {})
         self._mock_builtins(imported_module_data, builtins)
@@ -172,8 +176,9 @@ class Sandbox:
         with self.trace.as_filename(filename, code):
             exec(compiled_code, imported_module_data)
         # Copy over data to module
-        for key, value in imported_module_data.items():
-            setattr(imported_module, key, value)
+        if imported_module_data is not imported_module.__dict__:
+            for key, value in imported_module_data.items():
+                setattr(imported_module, key, value)
         # And get them back the module
         return imported_module
 
